@@ -156,3 +156,35 @@ def add_pattern_to(chk, r, n, **kw):
     if st:
         k, dis, keys, samples = st
         chk.corr(PAT_NAME, k, dis, keys, samples)
+
+
+# ----------------------------------------------------------------------------- PowellsMethod, complete model
+
+POW_NAME = ("whole optimizer PowellsMethod (counters, new_dim with checked argsort, the inner HillClimbingOptimizer rebuilt per dimension with its own "
+            "geometry, translation of inner positions, outer constraint check and repair; both known findings - IndexError without a valid score, "
+            "the inner climber's never-evaluated tracked pair - are PREDICTED by the model): GFO.Model.Powell driven through the driver model by the "
+            "recorded tape must emit the same positions, rows, trace, best result or the same exception, the outer and the inner tracker, the counters "
+            "and consume the tape exactly")
+
+
+def powell_stage(chk, r, n, constraint_p=0.4, nonfinite_p=0.3):
+    sps = [bkgen.scenario(r, "PowellsMethod", constraint_p=constraint_p, nonfinite_p=nonfinite_p) for _ in range(n)]
+    dis, keys, samples = [], set(), []
+    k = 0
+    for i in range(0, len(sps), 60):
+        for s, o in loc.run_batch(sps[i:i + 60], loc.run_powell_scenario):
+            k += 1
+            keys.add((s["opt_kwargs"].get("iters_p_dim"), bool(s.get("constraint")), tuple(sorted(o["tape_kinds"])),
+                      "raised-as-predicted" if o["raised"] and o["diff"] is None else ("raised" if o["raised"] else "ok")))
+            if o["diff"] is not None:
+                dis.append(dict(case=s, diff=o["diff"]))
+            elif len(samples) < 2:
+                samples.append(dict(kwargs=s["opt_kwargs"], tape_entries=o["tape_len"], tape_kinds=o["tape_kinds"], raised=o["raised"]))
+    return k, dis, keys, samples
+
+
+def add_powell_to(chk, r, n, **kw):
+    st = chk.stage("whole-optimizer Powell correspondence", powell_stage, chk, r, n, **kw)
+    if st:
+        k, dis, keys, samples = st
+        chk.corr(POW_NAME, k, dis, keys, samples)
